@@ -467,7 +467,7 @@ impl Property for C05 {
         Meta {
             level: "exploration",
             rule: "each run is a history of grammar-valid instructions over the alphabet {function, function-end, parameter, label, each terminator, block instruction, variable, undef, line, no-line, one letter per module-level section}: 2/3 of the runs take a well-formed producer module and apply 0-3 message faults (drop, dup, swap, move, insert; biased to bracket boundaries), 1/3 are free words of length <= 8 biased to structural letters; vendor and context-dependent module-scope opcodes are not in the alphabet; the history goes through dr::load_words and is judged against the bracket automaton + section map; abstract trace = sequence of (letter class, automaton outcome); non-trivial = >= 3 instructions or a fault applied",
-            lanes: "a line instruction in a function outside a block leaves only its own placement unconstrained (block/terminator and placement clauses still checked)",
+            lanes: "a line instruction in a function outside a block leaves only its own placement unconstrained (block/terminator and placement clauses still checked); direct-feed lane: the same history fed to a Loader with the binary's real generator / schema words must give the same verdict and module as load_words; merge instructions naming the following label; Capability Linkage + LinkageAttributes on function ids",
             triple_measure: "(automaton state none/function/block, letter class, outcome: ok or which structural error) — 3 states x ~21 letters",
             item_measure: "n/a",
             assumptions: &[
